@@ -584,7 +584,7 @@ _SS = _c18_methods(SPOOLED_STRING, [
     {'py': 'write', 'name': 'write', 'params': {'s': 'Str'}, 'result': 'None',
      'tie_theorem': 'C18.src_ss_write_closed'},
     {'py': 'readline', 'name': 'readline', 'params': {'length': 'Option Int'}, 'result': 'Str',
-     'tie_theorem': 'C18.src_ss_readline_closed'},
+     'tie_theorem': 'C18.src_ss_readline_eq_model'},
 ])
 
 SPECS = {
